@@ -126,7 +126,6 @@ package generator
 //@   props C16
 //@   nosafety
 //@   requires ana != nil && ana.Pkg != nil && ana.Pkg.Types != nil && len(s) >= 3
-//@   modifies *
 //@   callarg fmt.Sprintf@2 1 sqlLiteral(enumValue.Const)
 //@   callarg fmt.Sprintf@2 2 typeName
 //@   callarg fmt.Sprintf@2 3 varName
@@ -143,3 +142,24 @@ package generator
 
 //@ func ToLowerFirst
 //@   pure
+
+// ---------------------------------------------------------------- frames used by C08
+// text replacement: nothing that existed before is written
+
+//@ func ReplaceEnums
+//@   props C08 C16
+//@   nosafety
+
+//@ func TableNameReplacer.Replace
+//@   props C08 C16
+//@   nosafety
+
+// the replacer maps the Go name of every table to its SQL name
+//@ func NewTableNameReplacer
+//@   props C08 C16
+//@   nosafety
+//@   ensures result != nil && fresh(result)
+//@   ensures forall k int :: 0 <= k && k < len(tables) ==> has(result, string(tables[k].TableName())) && result[string(tables[k].TableName())] == SQLTableName(tables[k].TableName())
+//@   loop tables.1 index n
+//@   loop tables.1 invariant out != nil && fresh(out) && allocated(out)
+//@   loop tables.1 invariant forall k int :: 0 <= k && k < n ==> has(out, string(tables[k].TableName())) && out[string(tables[k].TableName())] == SQLTableName(tables[k].TableName())
